@@ -85,7 +85,7 @@ def check_obs(spec, obs):
     for i, t in enumerate(spec['tests']):
         tid = 'T%02d' % i
         if tw.layer_can_set_up(spec, t.get('layer')) and tid not in ran:
-            res.append(('test-not-run:%s' % fault_signature(spec),
+            res.append(('test-not-run:%s' % fault_signature(spec, obs),
                         'test %s (%s) was selected, its layers can be set up, but it never '
                         'ran; world %s' % (tid, t['k'], desc)))
             break
@@ -98,7 +98,7 @@ def check_obs(spec, obs):
             downs[e[1]] = downs.get(e[1], 0) + 1
     for name, n in ups.items():
         if downs.get(name, 0) < n:
-            res.append(('layer-not-torn-down:%s' % fault_signature(spec),
+            res.append(('layer-not-torn-down:%s' % fault_signature(spec, obs),
                         'layer %s was set up %d times but torn down %d times; world %s'
                         % (name, n, downs.get(name, 0), desc)))
             break
@@ -108,16 +108,16 @@ def check_obs(spec, obs):
     have = {name for name, rans in parsed['layers'] if rans}
     for ly in runnable:
         if tw.full_layer_name(mod, ly) not in have:
-            res.append(('no-layer-summary:%s' % fault_signature(spec),
+            res.append(('no-layer-summary:%s' % fault_signature(spec, obs),
                         "no 'Ran N tests' line for layer %s; world %s" % (ly, desc)))
             break
     if len(test_layers) > 1 and parsed['total'] is None:
-        res.append(('no-total-line:%s' % fault_signature(spec),
+        res.append(('no-total-line:%s' % fault_signature(spec, obs),
                     "no 'Total:' line although %d layers were scheduled; world %s"
                     % (len(test_layers), desc)))
     # recorded against that test / layer
     for i, t in enumerate(spec['tests']):
-        if not tw.layer_can_set_up(spec, t.get('layer')):
+        if not tw.layer_can_set_up(spec, t.get('layer')) or ('T%02d' % i) not in ran:
             continue
         for cat, sfx in tw.model_events(t):
             name = 'test_x (%s.T%02d.test_x)%s' % (mod, i, sfx)
@@ -152,16 +152,24 @@ def check_obs(spec, obs):
     return res
 
 
-def fault_signature(spec):
-    parts = sorted({t['k'] for t in spec['tests'] if t['k'] not in ('pass', 'xfail')})
-    for ly in spec.get('layers', ()):
-        if ly.get('setUp'):
-            parts.append('layer.setUp')
-        if ly.get('tearDown'):
-            parts.append('layer.tearDown')
-    if '--buffer' in spec.get('args', ()):
-        parts.append('buffer')
-    return '+'.join(sorted(set(parts)))[:120]
+def fault_signature(spec, obs=None):
+    """minimal signature of a containment failure: the last fault that really
+    happened (kind of the last bad test that ran, or the layer hook that raised
+    after it), plus 'buffer' when buffering is on"""
+    last = None
+    if obs is not None:
+        kinds = {('T%02d' % i): t for i, t in enumerate(spec['tests'])}
+        by = {ly['name']: ly for ly in spec.get('layers', ())}
+        for e in obs.trace:
+            if e[0] == 'ran' and e[1] in kinds and tw.is_bad(kinds[e[1]]):
+                last = kinds[e[1]]['k']
+            elif e[0] == 'layer_setUp' and by.get(e[1], {}).get('setUp'):
+                last = 'layer.setUp'
+            elif e[0] == 'layer_tearDown' and by.get(e[1], {}).get('tearDown'):
+                last = 'layer.tearDown'
+    if last is None:
+        last = 'no-fault'
+    return 'after:' + last + (':buffer' if '--buffer' in spec.get('args', ()) else '')
 
 
 def check(case):
@@ -274,13 +282,21 @@ def random_spec(rng, alphabet, max_tests=6, layer_fault_p=0.25, args_pool=None,
     return spec
 
 
-def gen_random(seed):
+def gen_random(seed, tier='quick'):
     rng = random.Random(seed)
+    p_files = 0.03 if tier == 'thorough' else 0.0
     while True:
-        # two streams: single-event alphabet (so that buffered runs get past F1) and full
+        # two streams: single-event alphabet and full alphabet
         alpha = ALPHABET if rng.random() < 0.5 else [
             k for k in ALPHABET if restore_events({'k': k}) < 2]
-        yield {'spec': random_spec(rng, alpha)}
+        spec = random_spec(rng, alpha)
+        if rng.random() < p_files:
+            for ly in spec.get('layers', ()):
+                ly.pop('tearDown', None)
+            spec['args'] += ['-j2']
+            yield {'spec': spec, 'mode': 'files'}
+        else:
+            yield {'spec': spec}
 
 
 def run(budget_s, seed, tier):
@@ -291,7 +307,7 @@ def run(budget_s, seed, tier):
         ('pairs over reduced alphabet x buffer', True, gen_pairs()),
         ('layer shapes: 0..2 hook faults in a 4-layer graph x buffer', True, gen_layer_shapes()),
         ('children (-j2), 5 worlds', False, gen_children()),
-        ('random', False, gen_random(seed)),
+        ('random', False, gen_random(seed, tier)),
     ]
     return tw.explore(
         PROPERTY, phases, check, budget_s,
